@@ -86,7 +86,10 @@ def mentions_py(value, n):
 
 def mk_validator(n, one_arg=False):
     """`validator(value, port)`; with `one_arg` the deprecated but supported signature `validator(value)`"""
-    if one_arg:
+    if one_arg and n % 3 == 1:
+        def validator(value, *, strict=True, **options):      # ONE positional parameter, the rest keyword-only: still the 1-arg form
+            return 'rejected' if mentions_py(value, n) else None
+    elif one_arg:
         def validator(value):
             return 'rejected' if mentions_py(value, n) else None
     else:
